@@ -432,8 +432,9 @@ def export_grid(chk, full):
 def bracket_cells(quick):
     """triples with known J; documented (a, q) (regime computed, not assumed) plus a few outside the regime"""
     cells = []
-    for b in BS:
-        a, q = DOC[b]
+    # (the bases of the frequency cells plus two more between 1.001 and 1.2, each with (a, q) inside the documented regime)
+    for b in list(BS) + [1.05, 1.1]:
+        a, q = DOC[b] if b in DOC else (20.0, 700 if b == 1.05 else 400)
         js = list(range(0, 11))
         if quick and b == 1.001:
             js = [0, 3, 5, 9, 10]
@@ -455,7 +456,7 @@ def bracket_cells(quick):
     return cells
 
 
-BFRAC = {1.001: [1001, 1000], 1.2: [6, 5], 1.5: [3, 2], 2.0: [2, 1]}
+BFRAC = {1.001: [1001, 1000], 1.2: [6, 5], 1.5: [3, 2], 2.0: [2, 1], 1.05: [21, 20], 1.1: [11, 10]}
 
 
 def bounds_inputs(chk, quick):
